@@ -338,16 +338,17 @@ Definition lay_body (st : symtab) (pkg ctx : qname) (l : list delem) : list sele
   sort_project (lay_keyed st pkg ctx l).
 
 (* printFile: extension declarations grouped by extendee, in order of first appearance *)
-Fixpoint add_ext (x : qname) (f : sfield) (bs : list sext) : list sext :=
+Fixpoint add_group {F} (x : qname) (f : F) (bs : list (qname * list F)) : list (qname * list F) :=
   match bs with
-  | [] => [{| sx_extendee := x; sx_fields := [f] |}]
-  | b :: r => if qname_eqb (sx_extendee b) x
-              then {| sx_extendee := x; sx_fields := sx_fields b ++ [f] |} :: r
-              else b :: add_ext x f r
+  | [] => [(x, [f])]
+  | b :: r => if qname_eqb (fst b) x then (x, snd b ++ [f]) :: r else b :: add_group x f r
   end.
 
+Definition group_by {F} (l : list (qname * F)) : list (qname * list F) :=
+  fold_left (fun bs xf => add_group (fst xf) (snd xf) bs) l [].
+
 Definition group_exts (l : list (qname * sfield)) : list sext :=
-  fold_left (fun bs xf => add_ext (fst xf) (snd xf) bs) l [].
+  map (fun g => {| sx_extendee := fst g; sx_fields := snd g |}) (group_by l).
 
 Definition lay_file (st : symtab) (d : dfile) : sfile :=
   {| s_pkg := d_pkg d;
